@@ -8,7 +8,7 @@ from .. import core, progs
 PROP = 'C18'
 LEVEL = 'exploration'
 CASES_ARE_COUNTED = True
-TIERS = {'quick': {'runs': 400, 'budget_s': 45}, 'thorough': {'runs': 40000, 'budget_s': 600}}
+TIERS = {'quick': {'runs': 300, 'budget_s': 55}, 'thorough': {'runs': 40000, 'budget_s': 600}}
 WALL_CAP_S = 120
 NO_RERUN = True
 DDMIN_FIELDS = ('programs',)
